@@ -23,29 +23,47 @@ import (
 	"go/token"
 	"os"
 	"path/filepath"
+	"reflect"
 	"strconv"
 	"strings"
 )
 
 const vhookPath = "github.com/zitadel/saml/pkg/vhook"
 
+var noStmt bool // -nostmt: function-entry points only
+
 func main() {
 	repo := flag.String("repo", "/repo", "repository root")
 	src := flag.String("src", "", "directory with vhook sources (*.go.src)")
 	out := flag.String("out", "", "scratch output directory")
+	flag.BoolVar(&noStmt, "nostmt", false, "do not insert statement-level points")
+	as := flag.String("as", "", "root the module is built from (go.mod replace target) when it differs from -repo: overlay keys are written relative to it, so a scratch copy of the repository is checked without touching the original")
 	flag.Parse()
 	if *src == "" || *out == "" {
 		fmt.Fprintln(os.Stderr, "usage: vinstrument -repo R -src S -out O")
 		os.Exit(2)
 	}
 	replace := map[string]string{}
+	if *as == "" {
+		*as = *repo
+	}
+	asRoot := *as
 	// virtual package
 	for _, m := range [][2]string{
 		{"pkg/vhook/vhook.go", "vhook.go.src"},
 		{"pkg/vhook/vsync/vsync.go", "vsync/vsync.go.src"},
 		{"pkg/vhook/vatomic/vatomic.go", "vatomic/vatomic.go.src"},
 	} {
-		replace[filepath.Join(*repo, m[0])] = filepath.Join(*src, m[1])
+		replace[filepath.Join(asRoot, m[0])] = filepath.Join(*src, m[1])
+	}
+	// harness-owned self-test programs, instrumented exactly like repository files (virtual package pkg/vhook/vselftest)
+	{
+		dst := filepath.Join(*out, "src", "pkg/vhook/vselftest/vselftest.go")
+		if _, err := rewrite(filepath.Join(*src, "vselftest/vselftest.go.src"), dst); err != nil {
+			fmt.Fprintln(os.Stderr, "vinstrument: vselftest:", err)
+			os.Exit(2)
+		}
+		replace[filepath.Join(asRoot, "pkg/vhook/vselftest/vselftest.go")] = dst
 	}
 	n := 0
 	points := 0
@@ -65,16 +83,34 @@ func main() {
 		rel, _ := filepath.Rel(*repo, path)
 		dst := filepath.Join(*out, "src", rel)
 		p, err := rewrite(path, dst)
+		if err != nil && strings.HasPrefix(err.Error(), "internal:") {
+			// the rewritten file does not print: an instrumenter bug, never silently skipped
+			fmt.Fprintf(os.Stderr, "vinstrument: %s: %v\n", path, err)
+			os.Exit(2)
+		}
 		if err != nil {
 			// a file that does not parse fails the build exactly as it would without the overlay
 			fmt.Fprintf(os.Stderr, "vinstrument: %s: %v (left untouched)\n", path, err)
 			return nil
 		}
 		points += p
-		replace[path] = dst
+		replace[filepath.Join(asRoot, rel)] = dst
 		n++
 		return nil
 	})
+	if asRoot != *repo {
+		// files of the build root that the checked copy does not have are deleted from the build
+		_ = filepath.Walk(filepath.Join(asRoot, "pkg"), func(path string, info os.FileInfo, err error) error {
+			if err != nil || info.IsDir() || !strings.HasSuffix(path, ".go") || strings.HasSuffix(path, "_test.go") {
+				return nil
+			}
+			rel, _ := filepath.Rel(asRoot, path)
+			if _, err := os.Stat(filepath.Join(*repo, rel)); os.IsNotExist(err) {
+				replace[path] = ""
+			}
+			return nil
+		})
+	}
 	if err != nil {
 		fmt.Fprintln(os.Stderr, "vinstrument:", err)
 		os.Exit(2)
@@ -220,9 +256,76 @@ func rewrite(path, dst string) (int, error) {
 	})
 	_ = usedTime
 	_ = usedFlate
+	// 5b. channel operations -> scheduler-aware helpers (vhook.Recv1/Recv2/SendTo/Close/Select)
+	rewriteChans(f)
+	// 6. statement-level points: vhook.Point("s:<file>:<line>") before every statement of every block, case
+	// and select clause. The scheduler ignores "s:" labels unless it runs at statement granularity.
+	isPoint := func(s ast.Stmt) bool {
+		es, ok := s.(*ast.ExprStmt)
+		if !ok {
+			return false
+		}
+		c, ok := es.X.(*ast.CallExpr)
+		if !ok {
+			return false
+		}
+		sel, ok := c.Fun.(*ast.SelectorExpr)
+		if !ok {
+			return false
+		}
+		id, ok := sel.X.(*ast.Ident)
+		return ok && id.Name == "vhook_" && sel.Sel.Name == "Point"
+	}
+	base := filepath.Base(path)
+	instrList := func(list []ast.Stmt) []ast.Stmt {
+		if len(list) == 0 {
+			return list
+		}
+		out := make([]ast.Stmt, 0, 2*len(list))
+		for i, s := range list {
+			if !isPoint(s) && !(i > 0 && isPoint(list[i-1])) {
+				out = append(out, pointStmt("s:"+base+":"+strconv.Itoa(fset.Position(s.Pos()).Line)))
+			}
+			out = append(out, s)
+		}
+		return out
+	}
+	if !noStmt {
+		skip := map[*ast.BlockStmt]bool{} // bodies of switch / select hold clauses, not statements
+		ast.Inspect(f, func(n ast.Node) bool {
+			switch x := n.(type) {
+			case *ast.SwitchStmt:
+				skip[x.Body] = true
+			case *ast.TypeSwitchStmt:
+				skip[x.Body] = true
+			case *ast.SelectStmt:
+				skip[x.Body] = true
+			case *ast.BlockStmt:
+				if !skip[x] {
+					x.List = instrList(x.List)
+				}
+			case *ast.CaseClause:
+				x.Body = instrList(x.Body)
+			case *ast.CommClause:
+				x.Body = instrList(x.Body)
+			}
+			return true
+		})
+	}
+	// comments have no stable place next to position-less inserted statements: keep only directive comments
+	var keep []*ast.CommentGroup
+	for _, cg := range f.Comments {
+		for _, c := range cg.List {
+			if strings.HasPrefix(c.Text, "//go:") || strings.HasPrefix(c.Text, "// +build") || strings.HasPrefix(c.Text, "//line") {
+				keep = append(keep, cg)
+				break
+			}
+		}
+	}
+	f.Comments = keep
 	var buf bytes.Buffer
 	if err := format.Node(&buf, fset, f); err != nil {
-		return 0, err
+		return 0, fmt.Errorf("internal: %w", err)
 	}
 	src := buf.String()
 	// add the vhook import right after the package clause (offset found by re-parsing the clause)
@@ -301,4 +404,210 @@ func or(a, b string) string {
 		return a
 	}
 	return b
+}
+
+// ---- channel operations ------------------------------------------------------------------------------
+
+func vcall(fn string, args ...ast.Expr) *ast.CallExpr {
+	return &ast.CallExpr{Fun: &ast.SelectorExpr{X: ast.NewIdent("vhook_"), Sel: ast.NewIdent(fn)}, Args: args}
+}
+
+func isRecv(e ast.Expr) (*ast.UnaryExpr, bool) {
+	for {
+		p, ok := e.(*ast.ParenExpr)
+		if !ok {
+			break
+		}
+		e = p.X
+	}
+	u, ok := e.(*ast.UnaryExpr)
+	return u, ok && u.Op == token.ARROW
+}
+
+// rewriteChans rewrites select statements, sends, receives and close() calls of one file.
+func rewriteChans(f *ast.File) {
+	// statements first: select, send, comma-ok receive
+	var fixStmt func(s ast.Stmt) ast.Stmt
+	fixList := func(l []ast.Stmt) {
+		for i := range l {
+			l[i] = fixStmt(l[i])
+		}
+	}
+	selN := 0
+	fixStmt = func(s ast.Stmt) ast.Stmt {
+		switch x := s.(type) {
+		case *ast.LabeledStmt:
+			x.Stmt = fixStmt(x.Stmt)
+		case *ast.SendStmt:
+			return &ast.ExprStmt{X: &ast.CallExpr{Fun: vcall("SendTo", x.Chan), Args: []ast.Expr{x.Value}}}
+		case *ast.AssignStmt:
+			if len(x.Lhs) == 2 && len(x.Rhs) == 1 {
+				if u, ok := isRecv(x.Rhs[0]); ok {
+					x.Rhs[0] = vcall("Recv2", u.X)
+				}
+			}
+		case *ast.DeclStmt:
+			if gd, ok := x.Decl.(*ast.GenDecl); ok {
+				for _, sp := range gd.Specs {
+					if vs, ok := sp.(*ast.ValueSpec); ok && len(vs.Names) == 2 && len(vs.Values) == 1 {
+						if u, ok := isRecv(vs.Values[0]); ok {
+							vs.Values[0] = vcall("Recv2", u.X)
+						}
+					}
+				}
+			}
+		case *ast.SelectStmt:
+			selN++
+			return rewriteSelect(x, selN)
+		}
+		return s
+	}
+	ast.Inspect(f, func(n ast.Node) bool {
+		switch x := n.(type) {
+		case *ast.BlockStmt:
+			fixList(x.List)
+		case *ast.CaseClause:
+			fixList(x.Body)
+		case *ast.CommClause:
+			fixList(x.Body)
+		case *ast.IfStmt:
+			if x.Init != nil {
+				x.Init = fixStmt(x.Init)
+			}
+			if x.Else != nil {
+				x.Else = fixStmt(x.Else)
+			}
+		case *ast.ForStmt:
+			if x.Init != nil {
+				x.Init = fixStmt(x.Init)
+			}
+			if x.Post != nil {
+				x.Post = fixStmt(x.Post)
+			}
+		case *ast.SwitchStmt:
+			if x.Init != nil {
+				x.Init = fixStmt(x.Init)
+			}
+		case *ast.TypeSwitchStmt:
+			if x.Init != nil {
+				x.Init = fixStmt(x.Init)
+			}
+		}
+		return true
+	})
+	// remaining receive expressions and close() calls, wherever an expression may stand
+	replaceExprs(f, func(e ast.Expr) ast.Expr {
+		if u, ok := e.(*ast.UnaryExpr); ok && u.Op == token.ARROW {
+			return vcall("Recv1", u.X)
+		}
+		if c, ok := e.(*ast.CallExpr); ok && len(c.Args) == 1 {
+			if id, ok := c.Fun.(*ast.Ident); ok && id.Name == "close" && id.Obj == nil {
+				return vcall("Close", c.Args[0])
+			}
+		}
+		return e
+	})
+}
+
+// rewriteSelect turns a select statement into a switch over vhook.Select.
+func rewriteSelect(sel *ast.SelectStmt, n int) ast.Stmt {
+	sfx := strconv.Itoa(n)
+	vi, vv, vok := "vsel_i"+sfx, "vsel_v"+sfx, "vsel_ok"+sfx
+	hasDefault := "false"
+	var cases []ast.Expr
+	var clauses []ast.Stmt
+	idx := 0
+	use := &ast.AssignStmt{Lhs: []ast.Expr{ast.NewIdent("_"), ast.NewIdent("_")}, Tok: token.ASSIGN, Rhs: []ast.Expr{ast.NewIdent(vv), ast.NewIdent(vok)}}
+	for _, c := range sel.Body.List {
+		cc := c.(*ast.CommClause)
+		if cc.Comm == nil {
+			hasDefault = "true"
+			// index -1; written as the switch's default clause so that a select whose clauses all terminate stays a terminating statement
+			clauses = append(clauses, &ast.CaseClause{List: nil, Body: append([]ast.Stmt{use}, cc.Body...)})
+			continue
+		}
+		var pre []ast.Stmt
+		switch x := cc.Comm.(type) {
+		case *ast.SendStmt:
+			cases = append(cases, vcall("SendCase", x.Chan, x.Value))
+		case *ast.ExprStmt:
+			u, _ := isRecv(x.X)
+			cases = append(cases, vcall("RecvCase", u.X))
+		case *ast.AssignStmt:
+			u, _ := isRecv(x.Rhs[0])
+			cases = append(cases, vcall("RecvCase", u.X))
+			rhs := []ast.Expr{vcall("As", u.X, ast.NewIdent(vv))}
+			if len(x.Lhs) == 2 {
+				rhs = append(rhs, ast.NewIdent(vok))
+			}
+			pre = append(pre, &ast.AssignStmt{Lhs: x.Lhs, Tok: x.Tok, Rhs: rhs})
+			if x.Tok == token.DEFINE {
+				// a variable the clause declares but never uses is legal in a select; keep it legal here
+				for _, l := range x.Lhs {
+					if id, ok := l.(*ast.Ident); ok && id.Name != "_" {
+						pre = append(pre, &ast.AssignStmt{Lhs: []ast.Expr{ast.NewIdent("_")}, Tok: token.ASSIGN, Rhs: []ast.Expr{ast.NewIdent(id.Name)}})
+					}
+				}
+			}
+		}
+		body := append([]ast.Stmt{use}, pre...)
+		body = append(body, cc.Body...)
+		clauses = append(clauses, &ast.CaseClause{List: []ast.Expr{&ast.BasicLit{Kind: token.INT, Value: strconv.Itoa(idx)}}, Body: body})
+		idx++
+	}
+	if hasDefault == "false" {
+		clauses = append(clauses, &ast.CaseClause{List: nil, Body: []ast.Stmt{&ast.ExprStmt{X: &ast.CallExpr{Fun: ast.NewIdent("panic"),
+			Args: []ast.Expr{&ast.BasicLit{Kind: token.STRING, Value: strconv.Quote("vhook: select without default returned no case")}}}}}})
+	}
+	init := &ast.AssignStmt{
+		Lhs: []ast.Expr{ast.NewIdent(vi), ast.NewIdent(vv), ast.NewIdent(vok)}, Tok: token.DEFINE,
+		Rhs: []ast.Expr{vcall("Select", append([]ast.Expr{ast.NewIdent(hasDefault)}, cases...)...)},
+	}
+	return &ast.SwitchStmt{Init: init, Tag: ast.NewIdent(vi), Body: &ast.BlockStmt{List: clauses}}
+}
+
+// replaceExprs applies fn to every expression slot of the tree (post-order), by reflection over the node structs.
+func replaceExprs(root ast.Node, fn func(ast.Expr) ast.Expr) {
+	exprT := reflect.TypeOf((*ast.Expr)(nil)).Elem()
+	var visit func(v reflect.Value)
+	seen := map[uintptr]bool{}
+	visit = func(v reflect.Value) {
+		switch v.Kind() {
+		case reflect.Ptr:
+			if v.IsNil() || seen[v.Pointer()] {
+				return
+			}
+			if _, isObj := v.Interface().(*ast.Object); isObj {
+				return
+			}
+			if _, isScope := v.Interface().(*ast.Scope); isScope {
+				return
+			}
+			seen[v.Pointer()] = true
+			visit(v.Elem())
+		case reflect.Interface:
+			if v.IsNil() {
+				return
+			}
+			visit(v.Elem())
+			if v.Type() == exprT && v.CanSet() {
+				if e, ok := v.Interface().(ast.Expr); ok {
+					if ne := fn(e); ne != e {
+						v.Set(reflect.ValueOf(ne))
+					}
+				}
+			}
+		case reflect.Struct:
+			for i := 0; i < v.NumField(); i++ {
+				if v.Type().Field(i).IsExported() {
+					visit(v.Field(i))
+				}
+			}
+		case reflect.Slice:
+			for i := 0; i < v.Len(); i++ {
+				visit(v.Index(i))
+			}
+		}
+	}
+	visit(reflect.ValueOf(root))
 }
